@@ -19,6 +19,8 @@ from .. import docgen
 # label alphabet: on these characters str.lower().upper() and str.casefold() induce the same equivalence
 # (asserted per generated pair); U+0130/U+0131 are excluded on purpose.
 LETTERS = list("abcxyzKQ") + list("äöüÄÖÜßẞσςΣжЖéÉ") + ["ǅ", "ﬁ", "K"]
+# theta/omega/angstrom/long-s/micro variants and a combining mark (every generated pair is still vetted by _agree)
+LETTERS += list("\u03b8\u03d1\u0398\u03f4\u03a9\u2126\u00c5\u212b\u017fs\u00b5\u03bc") + ["\u0301"]
 SIMPLE_DESTS = ["/u1", "/u2", "/path/three", "http://example.com/x", "#frag", "rel.html", "/u(1)"]
 RICH_DESTS = ["<a b>", "<>", "/a\\*b", "/e&amp;f", "/p%20q", "/é", "<sp ace\\>>", "/x&ouml;y", "mailto:a@b.c",
               "//host/p?q=1&r=2", "/back\\\\slash", "<\\<lt>"]
